@@ -246,6 +246,10 @@ pub enum RuneIdRef {
   Raw(u64, u32),
   /// k-th rune carried by the inputs of this transaction (model), else Known(k)
   Held(u32),
+  /// `<height of the block being built>:<index of this transaction + delta>`:
+  /// the id the rune etched by this transaction (delta 0) or by a later one
+  /// in the same block will have
+  ThisBlock(u32),
 }
 
 #[derive(Clone, Debug, PartialEq, Eq, Serialize, Deserialize)]
